@@ -2,6 +2,7 @@ package props
 
 import (
 	"fmt"
+	"github.com/tobgu/qframe/config/csv"
 	"math"
 	"os"
 	"sort"
@@ -298,6 +299,11 @@ func genAggs(t *rapid.T, in hx.Table, keys []string) []hx.Agg {
 
 func TestC04(t *testing.T) {
 	rapid.Check(t, func(t *rapid.T) {
+		if hx.Rarely(t, 40, "emptycsvkeys") {
+			emptyCSVKeys(t, false)
+			evC04.Case(false, func() string { return "key columns read from CSV fields that are all empty" }, "empty-csv-keys")
+			return
+		}
 		g := genGroupCase(t, true)
 		in := g.in
 		aggs := genAggs(t, in, g.keys)
@@ -658,4 +664,41 @@ func TestC04Large(t *testing.T) {
 	evC04.Extra("large_case_expected_32bit_hash_colliding_pairs", expectedCollidingPairs)
 	// Grouper.Stats is "strictly for info" and its layout may change: only its rendering is recorded
 	evC04.Extra("large_case_group_stats", fmt.Sprintf("%+v", g.Stats))
+}
+
+// emptyCSVKeys: key columns read from a CSV document in which every field of the key column is empty (typed string,
+// EmptyNull off: the cells are "" and the column has not one byte of content), grouped and de-duplicated with both Null
+// settings: all rows carry the same key.
+func emptyCSVKeys(t *rapid.T, distinct bool) {
+	n := rapid.IntRange(2, 9).Draw(t, "rows")
+	twoKeys := rapid.Bool().Draw(t, "twokeys")
+	var sb strings.Builder
+	sb.WriteString("k,k2,v\n")
+	for r := 0; r < n; r++ {
+		fmt.Fprintf(&sb, ",,%d\n", r)
+	}
+	qf := qframe.ReadCSV(strings.NewReader(sb.String()), csv.Types(map[string]string{"k": "string", "k2": "string", "v": "int"}))
+	if qf.Err != nil {
+		t.Fatalf("ReadCSV: %v", qf.Err)
+	}
+	if rapid.Bool().Draw(t, "sorted") {
+		qf = qf.Sort(qframe.Order{Column: "v", Reverse: true})
+	}
+	keys := []string{"k"}
+	if twoKeys {
+		keys = []string{"k", "k2"}
+	}
+	null := rapid.Bool().Draw(t, "null")
+	desc := fmt.Sprintf("CSV with %d rows whose key fields are all empty (typed string, EmptyNull off), keys %q, Null(%v)", n, keys, null)
+	if distinct {
+		d := qf.Distinct(groupby.Columns(keys...), groupby.Null(null))
+		if d.Err != nil || d.Len() != 1 {
+			t.Fatalf("Distinct returned %d rows (Err %v), all %d rows carry the key \"\"\n%s", d.Len(), d.Err, n, desc)
+		}
+		return
+	}
+	res := qf.GroupBy(groupby.Columns(keys...), groupby.Null(null)).Aggregate(qframe.Aggregation{Fn: "count", Column: "v", As: "n"})
+	if res.Err != nil || res.Len() != 1 || res.MustIntView("n").ItemAt(0) != n {
+		t.Fatalf("GroupBy/Aggregate returned %d groups (Err %v), all %d rows carry the key \"\"\n%s", res.Len(), res.Err, n, desc)
+	}
 }
